@@ -308,6 +308,10 @@ func (d *TCPDialer) dial(addr string, dualStack bool, timeout time.Duration) (ne
 	}
 	addrs, idx, err := d.getTCPAddrs(addr, dualStack, deadline)
 	if err != nil {
+		if errors.Is(err, context.DeadlineExceeded) || !time.Now().Before(deadline) {
+			// The resolver used up the dial timeout.
+			return nil, wrapDialWithUpstream(ErrDialTimeout, addr)
+		}
 		return nil, err
 	}
 	d.startTCPAddrsClean()
